@@ -13,6 +13,9 @@
 #include <yaclib/coro/future.hpp>
 #include <yaclib/coro/mutex.hpp>
 #include <yaclib/coro/on.hpp>
+#include <yaclib/coro/shared_mutex.hpp>
+#include <yaclib/algo/one_shot_event.hpp>
+#include <yaclib/async/shared_contract.hpp>
 #include <yaclib/exe/strand.hpp>
 #include <yaclib/exe/submit.hpp>
 #include <yaclib/fault/config.hpp>
@@ -34,9 +37,10 @@
 
 namespace {
 
-enum Prog : int { kPoolStrand, kTimedWaits, kCoroMutex, kCombinators, kCondVarPingPong, kRandomDevice, kProgCount };
+enum Prog : int { kPoolStrand, kTimedWaits, kCoroMutex, kCombinators, kCondVarPingPong, kRandomDevice, kTryOnce, kProgCount };
 const char* kProgNames[] = {"pool+strand", "timed waits", "coroutines+mutex", "combinators on a pool", "condvar ping-pong with timed waits",
-                            "clients of yaclib_std::random::random_device"};
+                            "clients of yaclib_std::random::random_device",
+                            "try-once users of compare_exchange_weak (try-lock word, SharedMutex::TryLock*, OneShotEvent::TryAdd vs Set, SharedFuture callbacks vs Set)"};
 const std::uint32_t kFreqs[] = {1, 2, 5, 16};
 const std::uint32_t kPicks[] = {1, 3, 10};
 const std::uint32_t kTicks[] = {1, 10};
@@ -243,6 +247,75 @@ void ProgRandomDevice(const Params& p) {
   }
 }
 
+// Weak compare-exchanges that are *not* retried: a session can end right after a spuriously failed one. Whatever the library
+// remembers about such a failure must be part of what SetSeed / the (random count, injector state) checkpoint restore.
+struct TryJob final : yaclib::Job {
+  std::uint32_t id = 0;
+  void Call() noexcept final {
+    Ev(9500 + id);
+  }
+  void Drop() noexcept final {
+  }
+};
+
+void ProgTryOnce(const Params& p) {
+  yaclib_std::atomic<int> word{0};
+  yaclib::SharedMutex<> sm;
+  yaclib::OneShotEvent ev;
+  auto [sf0, sp0] = yaclib::MakeSharedContract<int>();
+  yaclib::SharedFuture<int> sf = std::move(sf0);
+  yaclib::SharedPromise<int> sp = std::move(sp0);
+  const std::uint32_t n = 2 + p.a % 3;
+  const std::uint32_t rounds = 1 + p.b % 3;
+  std::vector<TryJob> jobs(n);
+  std::deque<yaclib_std::thread> ts;
+  for (std::uint32_t i = 0; i < n; ++i) {
+    ts.emplace_back([&, i, copy = sf] {
+      for (std::uint32_t r = 0; r < rounds; ++r) {
+        int expected = 0;
+        if (word.compare_exchange_weak(expected, static_cast<int>(i) + 1, std::memory_order_acquire, std::memory_order_relaxed)) {
+          Ev(9000 + 10 * i + r);
+          (void)word.load(std::memory_order_relaxed);
+          word.store(0, std::memory_order_release);
+        } else {
+          Ev(9100 + 10 * i + static_cast<std::uint32_t>(expected));
+        }
+        if (((p.c + i + r) & 1U) != 0) {
+          if (sm.TryLockShared()) {
+            Ev(9200 + i);
+            sm.UnlockHereShared();
+          } else {
+            Ev(9250 + i);
+          }
+        } else if (sm.TryLock()) {
+          Ev(9300 + i);
+          sm.UnlockHere();
+        } else {
+          Ev(9350 + i);
+        }
+      }
+      jobs[i].id = i;
+      if (!ev.TryAdd(jobs[i])) {
+        Ev(9400 + i);
+      }
+      copy.SubscribeInline([i](const yaclib::Result<int>& r) {
+        Ev(9600 + 10 * i + static_cast<std::uint32_t>(r.Ok()));
+      });
+    });
+  }
+  ts.emplace_back([&] {
+    for (std::uint32_t y = 0; y < p.c % 4; ++y) {
+      yaclib_std::this_thread::yield();
+    }
+    ev.Set();
+    std::move(sp).Set(1);
+  });
+  for (auto& t : ts) {
+    t.join();
+  }
+  Ev(static_cast<std::uint64_t>(word.load()));
+}
+
 void RunProgram(const Params& p) {
   switch (p.prog) {
     case kPoolStrand: ProgPoolStrand(p); break;
@@ -250,6 +323,7 @@ void RunProgram(const Params& p) {
     case kCoroMutex: ProgCoroMutex(p); break;
     case kCombinators: ProgCombinators(p); break;
     case kRandomDevice: ProgRandomDevice(p); break;
+    case kTryOnce: ProgTryOnce(p); break;
     default: ProgCondVar(p); break;
   }
 }
